@@ -872,6 +872,9 @@ def check_e10(ctx, rep):
 
 
 def check(ctx, rep):
+    from . import c10 as _c10, _share as _sh
+    _sh.share(ctx, rep, _c10, ('roots.registration-released-on-every-exit',),
+              'a stale collector root that was a temporary string makes the next garbage collection end in KeyError')
     check_e9(ctx, rep)
     check_e10(ctx, rep)
     check_e11(ctx, rep)
